@@ -1,6 +1,85 @@
-import Netpoll.Buf.Spec
+import Netpoll.Buf.OwnerLemmas25
+/-!
+C02 – zero-copy read results stay intact until their reader is released.
+
+Theorems over the ownership ledger model `Netpoll.Buf.Own` (see Props/C03.lean).  A *view* of the ledger is a
+result handed out by Next / Peek / Until / GetBytes (`block[lo, hi)`, owner buffer); Slice readers hold child
+nodes on the parent's blocks.  Views end at Release / Close / Slice of the owner and at the Append that gives
+the owner away.
+-/
 namespace Netpoll.Props.C02
-open Netpoll.Buf
-/-- placeholder until the ledger model is merged: a fresh buffer holds no readable byte. -/
-theorem fresh_empty (cfg : Cfg) (n : Nat) : (newLB cfg n : LB Nat).length = 0 := rfl
+open Netpoll.Buf Netpoll.Buf.Own
+
+/-- **Until `Release` is called on the reader they came from, the memory behind zero-copy results is not handed back to the
+pool**: in every state of a covered history, the block under every live view – a result of Next / Peek / Until / GetBytes whose
+owner has not been released, closed, sliced or appended away since, or a private copy of ReadBinary / ReadString / Read – has not
+been freed, whatever later reads, writes, growth, appends or releases of other readers happened.
+`_partial`: the history must satisfy `CovV` at every call:
+(1) no `WriteDirect` with `remain > 0` (the split of one block between two structs: known finding D4, witnesses below);
+(2) `MallocAck` only when the structs behind the flush node have reference count 1 (it would reset the count; inside the contract
+    these structs hold pending data only);
+(3) `Flush` / in-place `WriteBinary` / `book` / `resetTail` / `Append` (receiver) only when no *exposed* struct sits behind the write node
+    (these calls cut the chain there; inside the contract such structs were never read);
+(4) fresh ids for `new` and Slice readers, `Append` of another buffer. -/
+theorem C02_no_free_while_live_partial (cfg : Cfg) (ops : List Op) (hc : AllSteps cfg CovV {} ops)
+    (v : View) (hv : v ∈ (run cfg {} ops).mem.views) (hl : v.live = true) (bl : Block)
+    (hbl : (run cfg {} ops).mem.blocks[v.block]? = some bl) : bl.frees = 0 :=
+  view_block_unfreed (run_all ops hc).1 (run_all ops hc).2 hv hl hbl
+
+/-- the same as a statement about the executable oracle printed by `npdriver own` (`free-while-view-live`,
+`freed-block-in-chain`): it accepts every state of a covered history – the exact counterpart of `C02_D4_witness` -/
+theorem C02_oracle_accepts_partial (cfg : Cfg) (ops : List Op) (hc : AllSteps cfg CovV {} ops) :
+    (run cfg {} ops).noDangling = true :=
+  noDangling_of_good (run_all ops hc).1 (run_all ops hc).2
+
+/-- `CovV` holds along a history with zero-copy results of every kind held across later reads, writes, growth, a Slice, an Append
+and releases of other readers – and there are live views at its end -/
+def viewOps : List Op :=
+  [.new 0 16, .mal 0 16, .mal 0 16, .mal 0 16, .flush 0, .next 0 5, .peek 0 20, .skip 0 3, .peek 0 20, .getbytes 0 2,
+   .mal 0 2000, .flush 0, .next 0 1500, .slice 0 40 1, .next 1 10, .new 2 8, .mal 2 20, .flush 2, .next 2 4, .app 0 2, .flush 0,
+   .untl 1 3, .rel 0, .next 0 8, .rbin 0 4, .read 0 6]
+
+example : AllSteps { linkBufferCap := 16 } CovV {} viewOps := allStepsB_sound (fun _ _ => covVB_sound) _ _ (by decide)
+example : (((run { linkBufferCap := 16 } {} viewOps).mem.views.filter (·.live)).length) = 5 := by decide
+example : ((run { linkBufferCap := 16 } {} viewOps).mem.blocks.filter (fun b => b.frees > 0)).length = 7 := by decide
+
+/-- **What a Slice reader (or any other open reader) still holds is never handed back to the pool**: in every state of a
+covered history the block under each struct chained in a buffer – the child nodes a Slice reader holds on its parent's
+blocks, whatever happened to the parent since (reads, growth, Append, Release, Close) – has not been freed.
+`_partial`: `Cov` excludes `WriteDirect` with `remain > 0` (known finding D4, witnesses below) and a `MallocAck` that
+would reset a reference count different from 1; it asks for fresh buffer ids. -/
+theorem C02_no_free_while_reader_holds_partial (cfg : Cfg) (ops : List Op) (hc : AllSteps cfg Cov {} ops)
+    (id i k : Nat) (b : Buf) (nd : NodeS) (bl : Block)
+    (hb : (id, b) ∈ (run cfg {} ops).bufs) (hi : i ∈ b.chain) (hn : (run cfg {} ops).mem.nodes[i]? = some nd)
+    (hk : nd.block = some k) (hbl : (run cfg {} ops).mem.blocks[k]? = some bl) : bl.frees = 0 :=
+  (run_good ops hc).chained_unfreed hb hi hn hk hbl
+
+/-- a Slice reader outliving its parent's Close: the hypotheses are met and the child still sits on the parent's (unfreed) block -/
+def sliceOps : List Op := [.new 0 16, .mal 0 40, .flush 0, .slice 0 30 1, .next 1 10, .close 0]
+example : AllSteps { linkBufferCap := 16 } Cov {} sliceOps := allStepsB_sound (fun _ _ => covB_sound) _ _ (by decide)
+example : ((run { linkBufferCap := 16 } {} sliceOps).bufs.map fun p => (p.1, p.2.chain.length)) = [(0, 0), (1, 1)] := by decide
+example : ((run { linkBufferCap := 16 } {} sliceOps).mem.blocks.map (·.frees)) = [1, 0] := by decide
+
+/-- the concrete history of known finding D4 (corpus/C02/d04-writedirect-split-slice.ops, `seq 315 16`):
+`WriteDirect(extra, remain = 13)` splits block 1 into an unmanaged head node and a managed tail node; a Slice
+reader (buffer 4) takes a child of the head; `Close` of the parent frees block 1 through the tail. -/
+def d4cfg : Cfg := { linkBufferCap := 16 }
+def d4ops : List Op := [.new 1 30, .mal 1 33, .wdir 1 33 33 13, .flush 1, .slice 1 17 4, .close 1]
+
+/-- **D4 witness**: the unrestricted claim "no pool block is handed back while a chained node of an open reader
+or a live view lies in it" is false for the code as it is. -/
+theorem C02_D4_witness : ¬ ∀ ops : List Op, (run d4cfg {} ops).noDangling = true := by
+  intro h
+  exact absurd (h d4ops) (by decide)
+
+/-- before the parent is closed everything is still fine on that history (the witness is minimal in its last step) -/
+example : (run d4cfg {} (d4ops.take 5)).noDangling = true := by decide
+
+/-- a second witness (corpus/C02/d04b-writedirect-split-next-read.ops) with a plain `Next` result instead of a Slice reader: the head part is exposed by `Next`, a copying
+`Read` consumes the caller node and the tail, and releases the (unexposed) tail at once – the block is freed under the
+live view -/
+def d4ops' : List Op := [.new 1 30, .mal 1 33, .wdir 1 5 5 13, .mal 1 100, .flush 1, .next 1 20, .read 1 30]
+
+theorem C02_D4_witness_view : (run d4cfg {} d4ops').noDangling = false := by decide
+
 end Netpoll.Props.C02
